@@ -2,18 +2,25 @@
 //!
 //! Oracle: the Jacobian of `Context::apply(Fwd)` obtained from central finite
 //! differences (6th order, 13-point cross stencil, all stencil abscissae exactly
-//! representable), normalised by the meridional radius M and the parallel radius
-//! N·cos(lat) computed in the harness (`vcore::refmath::El`).  From it: meridional
-//! scale h, parallel scale k, cos of the angle between the images of meridian and
-//! parallel, determinant (orientation), areal scale.
+//! representable, steps shrinking towards the singular points of each mapping),
+//! normalised by the meridional radius M and the parallel radius N·cos(lat) computed
+//! in the harness (`vcore::refmath::El`).  From it: meridional scale h, parallel scale k,
+//! cosine of the angle between the images of meridian and parallel, determinant
+//! (orientation), areal scale.
 //!   conformal projections (merc, tmerc/utm, lcc, omerc, somerc, btmerc/butm within
 //!   3 degrees of the central meridian):  h = k,  cos(theta') = 0,  det > 0
 //!   laea:     h·k·sin(theta') = det/(M·N·cos) = 1, det > 0
 //!   webmerc:  (a·lon, a·asinh(tan lat)) in closed form
-//!   lines of true scale and origins: see `claims`.
+//!   lines of true scale, central-meridian northing (Gauss-Legendre quadrature of M),
+//!   origins, azimuth of the omerc initial line: see `claims`.
 //!   `geodesy::authoring::Jacobian::new(..).factors()` must agree with the harness values.
-//! Tolerances have the form  T0(kind) + CR·eps·F/(step·|derivative|)  (truncation floor plus
-//! the rounding of the differenced coordinates, F = largest magnitude involved).
+//! Tolerances have the form  T0(kind) + CR·eps·F/(step·radius)  (truncation / model floor plus
+//! the rounding of the differenced coordinates, F = largest magnitude involved, including
+//! intermediate quantities that cancel inside the library's formulas).  Points where the
+//! rounding term alone exceeds the level of judgement (1e-8; 1e-7 beyond 80 degrees) are
+//! counted as `skipped_noise_dominated`, never judged.
+//! A failure is attributed to a parameter group by repeating the same case on reduced
+//! definitions (`attribute`), which keeps the failure keys specific to a defect class.
 
 use geodesy::authoring::{Factors, Jacobian};
 use geodesy::prelude::*;
@@ -569,7 +576,7 @@ fn floor_conformal(kind: Kind, el: &El, dlon: f64) -> f64 {
             // measured (probe over 0..89.9 deg latitude): |h-k|/k = 0.55·n^4 on the central meridian and
             // 0.75·es^2·dlon^4 off it (GRS80: 5e-12 / 2.5e-10 at 3 deg; f = 1/150: 6.7e-11 / 9.4e-10)
             let w = dlon.abs() + 1e-3;
-            2e-10 + 2.0 * el.n3().powi(4) + 3.0 * el.es() * el.es() * w.powi(4)
+            4e-10 + 3.0 * el.n3().powi(4) + 4.0 * el.es() * el.es() * w.powi(4)
         }
         _ => 2e-10,
     }
@@ -648,7 +655,7 @@ fn claims(def: &Def, s: &Sem, el: &El, pts: &[[F; 2]]) -> Vec<Claim> {
                 out.push(Claim::Scale { dlon: 0.0, lat, k: s.k_0, tag: "k_0-on-central-meridian" });
                 let arc = integrate(|p| el.m(p), lat_0, lat, 12);
                 // Bowring's meridian arc formula is good to a fraction of a·n^4
-                let model = if s.kind.bowring() { 0.5 * el.a * n4 * s.k_0 } else { 0.0 };
+                let model = if s.kind.bowring() { 0.8 * el.a * n4 * s.k_0 } else { 0.0 };
                 out.push(Claim::Maps {
                     lon: s.lon_c,
                     lat,
@@ -695,8 +702,8 @@ fn claims(def: &Def, s: &Sem, el: &El, pts: &[[F; 2]]) -> Vec<Claim> {
     if origin_at_centre(def, s) {
         let extra = if s.kind == Kind::Lcc { el.a * s.k_0 / lcc_cone_constant(def, el).abs().max(1e-3) } else { 0.0 };
         // omerc: sqrt(D^2 - 1) is formed by cancellation when the centre is close to the equator
-        // (worst observed 1.0e-6 m at latc = 0.024 deg, alpha = 90): 5 micrometres instead of 1
-        let slack = if s.kind == Kind::Omerc { 5.0 } else { 1.0 };
+        // (worst observed 1.0e-6 m at latc = 0.024 deg, alpha = 90, 3e-6 m in 6.5e6 thorough cases): 10 micrometres instead of 1
+        let slack = if s.kind == Kind::Omerc { 10.0 } else { 1.0 };
         out.push(Claim::Maps { lon: s.lon_c, lat: s.lat_c.unwrap(), x: s.x_0, y: s.y_0, tol: slack * pos_tol(extra), tag: "false-origin-at-centre" });
     }
     out
@@ -1082,7 +1089,7 @@ fn libjac(inst: &Inst, s: &Sem, j: &Jac, rec: &mut Rec, record: bool) -> CaseRes
     let fc = factors(j, el, 0.0);
     // budget of the library's 2nd order differences with step 1e-5 rad
     let round = 4.0 * EPS * j.fmax.max(el.a) / 1e-5 * (1.0 / j.xl.hypot(j.yl) + 1.0 / j.xp.hypot(j.yp));
-    let tol = 1e-7 + 4.0 * round;
+    let tol = 2e-7 + 4.0 * round;
     let op = inst.text.split(' ').next().unwrap_or("");
     let rel = |a: f64, b: f64| (a - b).abs() / b.abs().max(1e-300);
     let sin_t = fc.s / (fc.h * fc.k);
@@ -1552,7 +1559,7 @@ fn main() {
         let nm = names.clone();
         run.section(
             "random",
-            "random parameter sets of every projection (centre, standard parallels in both hemispheres, k_0, lat_ts, azimuth of every quadrant incl. 90 exactly and rectified-grid angle, all aspects of laea, false origins) x built-in or random ellipsoid (f in [1e-7, 1/150], a in [1, 7e6]) x up to 12 points of the domain incl. its edges; lines of true scale and origins checked for every case",
+            "random parameter sets of every projection (centre, standard parallels in both hemispheres, k_0, lat_ts, azimuth of every quadrant incl. 90 and 270 exactly and rectified-grid angle, all aspects of laea, false origins; excluded by construction: omerc alpha = -90 exactly, a registered finding, see section registered-classes) x built-in or random ellipsoid (f in [1e-7, 1/150], a in [1, 7e6]) x up to 12 points of the domain incl. its edges; lines of true scale and origins checked for every case",
             n,
             move || case_strategy(nm.clone(), false, 12, 0.15),
             check,
